@@ -91,6 +91,8 @@ enum OpKind : int {
   OP_M_SEND, OP_M_RECV,
   // pinned references into grid storage (checked after every later operation)
   OP_X_PIN,
+  // operator / form objects shared as const objects between tasks (ops_shared.cpp)
+  OP_O_SH_BUILD, OP_O_SH_APPLY, OP_O_SH_BILIN, OP_O_SH_LIN,
   OP_NKINDS
 };
 const char *op_name(int kind);
@@ -117,6 +119,7 @@ struct Plan {
   int compare_canonical = 0;  // C18 oracle (b): also run run-to-block
   int static_init_throw = 0;  // allow ScalarThrow inside static init
   int deep = 0;               // snapshots include evaluations / generator output
+  int cold_check = 0;         // deep == 0: history-independence oracle once, at the end of every task
 };
 sj::Value plan_to_json(const Plan &p);
 bool plan_from_json(const sj::Value &v, Plan &p, std::string &err);
@@ -154,6 +157,7 @@ struct Outcome {
   uint64_t obs = 0;    // observation hash (bit-exact result / values)
   int target = -1;     // designated target slot (assignment / in-place / dst)
   int target2 = -1;    // second target (source of a move)
+  int pilfer1 = -1, pilfer2 = -1;  // operands passed as xvalues: may end in any valid state
   bool multi_grid_call = false;   // op took >= 2 splines (C08 bookkeeping)
   bool expect_refusal = false;    // C08: the call had to be refused
   std::vector<Violation> viol;    // op-local oracle findings
@@ -167,6 +171,12 @@ struct Message {
 
 struct Counters;  // probes and statistics (run.cpp)
 
+// operator expressions and forms built once by the main context and used by
+// every task through a const reference (concrete type in ops_shared.cpp)
+struct SharedObjsBase {
+  virtual ~SharedObjsBase() = default;
+};
+
 struct World {
   const Plan *plan = nullptr;
   std::vector<std::vector<Val>> family;  // not used directly; see grid_points
@@ -174,6 +184,7 @@ struct World {
   std::vector<Pool> priv;                 // one per task
   std::map<uint32_t, Message> mail;       // created before the tasks start
   Counters *cnt = nullptr;
+  SharedObjsBase *shobj = nullptr;        // built by OP_O_SH_BUILD during setup
 };
 
 // points of the grid family: variant 0 base, 1 equal-but-distinct, 2.. foreign
@@ -214,6 +225,8 @@ bool exec_forms(ExecCtx &ctx);
 bool exec_gen(ExecCtx &ctx);
 bool exec_interp(ExecCtx &ctx);
 bool exec_numint(ExecCtx &ctx);
+bool exec_shared(ExecCtx &ctx);
+void destroy_shared_objs(World &w);  // library code (call inside a LibRegion)
 
 // ---------------------------------------------------------------- helpers
 inline uint64_t hmix(uint64_t h, uint64_t v) { return sim::mix64(h ^ (v + 0x9E3779B97F4A7C15ull + (h << 6) + (h >> 2))); }
@@ -345,7 +358,7 @@ enum Probe : int {
   PR_XGRID_REFUSED, PR_EQGRID_DISTINCT, PR_IDX_IN, PR_IDX_EDGE, PR_IDX_HUGE,
   PR_IDX_WRAP, PR_LAST_OWNER_TASK, PR_MSG_SENT, PR_MSG_RECV, PR_C03_COMPARED,
   PR_SWEEP_POINTS, PR_FACTOR_INSIDE, PR_TWIN_COMPARED, PR_PIN_TAKEN, PR_PIN_CHECKED,
-  PR_ALIAS_SCALAR, PR_NKINDS
+  PR_ALIAS_SCALAR, PR_NONCONST_OPERAND, PR_XVALUE_OPERAND, PR_NKINDS
 };
 const char *probe_name(int p);
 void probe(int p, uint64_t n = 1);
